@@ -1411,8 +1411,8 @@ def fd_estimate(phi, h0, eps, levels=7, fscale=0.0):
     ``h_k = h0 2^-k``, with Romberg extrapolation.
 
     Returns ``(best, err, q, order_ok)``: the extrapolated value, an error
-    estimate that depends on the function values only (difference of the two
-    last diagonal entries used + rounding floor ``eps*max|phi|/h`` amplified
+    estimate that depends on the function values only (the larger of the two
+    last differences of diagonal entries used + rounding floor ``eps*max|phi|/h`` amplified
     by the extrapolation), the raw ladder and the result of the order test:
     on the part of the ladder that is above the rounding floor successive
     errors (against ``best``) must fall by >= 2^1.5 per halving (second
@@ -1437,9 +1437,13 @@ def fd_estimate(phi, h0, eps, levels=7, fscale=0.0):
                for i in range(len(row) - 1)]
         diag.append(row[0])
     best, err = diag[0], INF
-    for j in range(1, levels):
+    for j in range(2, levels):
         floor = 4.0 * eps * fmax / hs[j]
-        est = abs(diag[j] - diag[j - 1]) + floor
+        # two successive differences: a single coincidence of two entries
+        # (steps still outside the asymptotic regime) must not look like
+        # convergence
+        est = max(abs(diag[j] - diag[j - 1]),
+                  abs(diag[j - 1] - diag[j - 2])) + floor
         if est < err:
             best, err = diag[j], est
     # order test on the raw ladder
